@@ -95,7 +95,7 @@ def flight_keys() -> Set[str]:
 # request generator: link-free DAGs over one root group per component
 
 
-def gen_spec(rng: Any, max_feats: int = 8, frameworks: Sequence[str] = ("pa",), allow_options: bool = True, allow_multi_fw: bool = False, single_parent: bool = False) -> Dict[str, Any]:
+def gen_spec(rng: Any, max_feats: int = 8, frameworks: Sequence[str] = ("pa",), allow_options: bool = True, allow_multi_fw: bool = False, single_parent: bool = False, interleave: bool = False) -> Dict[str, Any]:
     """A spec is JSON: {"roots":[{"name","cols":{col:[vals]},"fw"}], "groups":[{"name","fw","features":{f:{"parents":[..],"expr":..}}}],
     "request":[{"name","options":{}}]}.  One root group; derived groups depend on root columns and on each other."""
     nrows = rng.randint(1, 4)
@@ -133,6 +133,14 @@ def gen_spec(rng: Any, max_feats: int = 8, frameworks: Sequence[str] = ("pa",), 
             avail.append(fname)
             owner[fname] = gname
         groups.append({"name": gname, "fw": gfw, "features": feats})
+    if interleave and len(groups) >= 2:
+        # spread the features over the groups at random: groups may then depend on each other's features (no feature cycle)
+        alldefs = [(f, d) for g in groups for f, d in g["features"].items()]
+        for g in groups:
+            g["features"] = {}
+        for f, d in alldefs:
+            rng.choice(groups)["features"][f] = d
+        groups = [g for g in groups if g["features"]]
     derived = [f for g in groups for f in g["features"]]
     nreq = rng.randint(1, min(4, len(derived)))
     req_names = rng.sample(derived, nreq)
@@ -195,6 +203,17 @@ def reference(spec: Dict[str, Any]) -> Dict[str, List[Any]]:
     for f in defs:
         val(f)
     return cols
+
+
+def mutual_groups(spec: Dict[str, Any]) -> bool:
+    """Two feature groups each of which has a feature with an ancestor in the other (the feature graph itself is acyclic)."""
+    owner = {f: g["name"] for g in spec.get("groups", []) for f in g["features"]}
+    dep: Set[Tuple[str, str]] = set()
+    for f, g in owner.items():
+        for a in ancestors(spec, f):
+            if a in owner and owner[a] != g:
+                dep.add((g, owner[a]))
+    return any((b, a) in dep for a, b in dep)
 
 
 def closure(spec: Dict[str, Any]) -> Set[str]:
